@@ -26,7 +26,7 @@ DECIDES = ('(P1) the context keys passed by optimise_numeric_binop are exactly t
            'method, and every operator symbol of Visitor.find_special_method_for_binary_operator reaches a handler whose operator has the '
            'symbol\'s special method; (RANGE) the integer constants admitted (|c| <= cut-off) fit a 32-bit C long and the multiplication '
            'head-room the template reserves, shift handlers only pass right-hand constant counts within 0..63; '
-           '(SIB1) the inlined floor-division / modulo adjustments are equal to CMath.c DivInt / ModInt.')
+           '(SIB1) the inlined floor-division / modulo adjustments are equal to the fall-through value of CMath.c DivInt / ModInt (early `if (...) return c;` special cases aside).')
 NOT_DECIDED = ('the digit-level arithmetic of the fast paths (unpacking, overflow of + and - inside the C long branch, float rounding), the '
                'nb_<slot> fallbacks chosen by the template, the generic NotImplemented/subclass protocol of the CPython fallbacks, and whether '
                'the coercions around the call preserve the result type.  The I3 clause of DESIGN.md is decided in the exact form "passed '
@@ -38,24 +38,30 @@ EXEMPT = {
         "DESIGN.md section 7: the misspelt 'LShift' only disables `if (!negative_shift_works && lla < 0) goto fallback` in the long long branch; "
         "negative_shift_works is 1 on every GCC/Clang/MSVC x86/ARM target, where the statement is a no-op",
 }
-MUTATIONS = [
+MUTATIONS = [   # (file, single edit, rule that reported it) -- all run on a scratch copy, every variant was reported with exit 1
     ('Cython/Compiler/Optimize.py', "_handle_simple_method_object___sub__: 'Subtract' -> 'Add'", 'C02-TAB'),
+    ('Cython/Compiler/Optimize.py', "alias _handle_simple_method_int___and__ = ..._object___or__", 'C02-TAB'),
     ('Cython/Compiler/Optimize.py', "optimise_numeric_binop: abs(numval.constant_result) > 2**30 -> 2**31", 'C02-RANGE'),
-    ('Cython/Compiler/Optimize.py', "optimise_numeric_binop: func_cname '__Pyx_Py%s_%s%s%s' -> '__Pyx_Py%s%s_%s%s' ", 'C02-P3'),
-    ('Cython/Compiler/Optimize.py', "optimise_numeric_binop: drop 'Divide' from the is_float operator whitelist? (no: add 'Multiply' to it)", 'C02-P3 (unreachable op)'),
-    ('Cython/Compiler/Optimize.py', "optimise_numeric_binop: `if is_float or operator not in ('Eq', 'Ne')` -> `if is_float`", 'C02-P3 (arity)'),
-    ('Cython/Compiler/Optimize.py', "_handle_simple_method_object___lshift__: 63 -> 64", 'C02-SHIFT'),
-    ('Cython/Compiler/Optimize.py', "_handle_simple_method_object___rshift__: drop the isinstance(args[1], IntNode) guard", 'C02-SHIFT'),
-    ('Cython/Compiler/Optimize.py', "optimise_numeric_binop: context=dict(op=..., order=...) without ret_type", 'C02-P1'),
-    ('Cython/Compiler/Optimize.py', "optimise_numeric_binop: remove 'Remainder' from the zero-divisor bail-out tuple", 'C02-P3 (DIV0)'),
-    ('Cython/Utility/Optimize.c', "PyLongBinop: {{if op == 'Lshift'}} -> {{if op == 'LShift'}} (second occurrence)", 'C02-P2'),
-    ('Cython/Utility/Optimize.c', "PyLongBinop: +30 head-room -> +20", 'C02-RANGE'),
-    ('Cython/Utility/Optimize.c', "PyLongBinop: q -= ((r != 0) & ((r ^ b) < 0)) -> q -= ((r != 0) & ((r ^ a) < 0))", 'C02-SIB'),
-    ('Cython/Utility/Optimize.c', "PyFloatBinop.proto: parameter `int zerodivision_check` removed", 'C02-P3 (arity)'),
+    ('Cython/Compiler/Optimize.py', "optimise_numeric_binop: func_cname '__Pyx_Py%s_%s%s%s' -> '__Pyx_Py%s%s_%s%s'", 'C02-P3 name'),
+    ('Cython/Compiler/Optimize.py', "optimise_numeric_binop: add 'Multiply' to the is_float operator whitelist", 'C02-P3 unreachable-op'),
+    ('Cython/Compiler/Optimize.py', "optimise_numeric_binop: remove the `elif operator == 'Divide': return None` branch", 'C02-P3 unreachable-op'),
+    ('Cython/Compiler/Optimize.py', "optimise_numeric_binop: `if is_float or operator not in ('Eq', 'Ne')` -> `if is_float`", 'C02-P3 arity'),
+    ('Cython/Compiler/Optimize.py', "optimise_numeric_binop: remove 'Remainder' from the zero-divisor bail-out tuple", 'C02-P3 zero-divisor'),
+    ('Cython/Compiler/Optimize.py', "optimise_numeric_binop: context=dict(op=..., order=...) without ret_type / with an extra key", 'C02-P1'),
+    ('Cython/Compiler/Optimize.py', "_handle_simple_method_object___lshift__: 63 -> 64", 'C02-SHIFT count'),
+    ('Cython/Compiler/Optimize.py', "_handle_simple_method_object___rshift__: drop the isinstance(args[1], IntNode) guard", 'C02-SHIFT rhs-int'),
+    ('Cython/Compiler/Optimize.py', "_optimise_num_binop: args = list(args) + extra_args[:2]", 'C02-PASS'),
+    ('Cython/Utility/Optimize.c', "PyLongBinop: second {{if op == 'Lshift'}} -> 'LShift' (a new misspelling next to the exempted one)", 'C02-P2'),
+    ('Cython/Utility/Optimize.c', "PyLongBinop: c_op in '+-|^>><<' -> '+-|^><<'", 'C02-P2'),
+    ('Cython/Utility/Optimize.c', "PyLongBinop: +30 head-room -> +10 (+20 is still safe and stays silent)", 'C02-RANGE'),
+    ('Cython/Utility/Optimize.c', "PyLongBinop: q -= ((r != 0) & ((r ^ b) < 0)) -> ((r ^ a) < 0)", 'C02-SIB'),
+    ('Cython/Utility/Optimize.c', "PyFloatBinop.proto: parameter `int zerodivision_check` removed", 'C02-P3 arity'),
+    ('Cython/Utility/Optimize.c', "PyLongCompare: function name {{op}}{{order}} -> {{order}}{{op}}", 'C02-P3 name'),
     ('Cython/Compiler/Visitor.py', "find_special_method_for_binary_operator: '-' -> '__add__'", 'C02-OPS'),
-    ('Cython/Compiler/ExprNodes.py', "find_special_bool_compare_function: \"Eq\" if self.operator == \"==\" else \"Ne\" -> swapped", 'C02-OPS'),
-    ('behaviour-preserving', "rename local numval -> constant_node in optimise_numeric_binop; reorder handler methods; rewrite the cut-off as `not (abs(c) <= 2**30)`; "
-                             "reformat the c_op dict of PyLongBinop", 'silent'),
+    ('Cython/Compiler/ExprNodes.py', 'find_special_bool_compare_function: "Eq" if self.operator == "==" else "Ne" -> swapped', 'C02-OPS'),
+    ('behaviour-preserving (all silent)', "rename local numval -> constant_node; cut-off rewritten `not (abs(c) <= 1 << 30)`; rows of the c_op dict reordered; "
+                                          "DivInt copy with renamed locals and `q = q - ...`; head-room +30 -> +20; shift guards merged into one positive `if ... and 0 < c < 64`; "
+                                          "two handler methods reordered with an extra local", 'silent'),
 ]
 
 SECTIONS = ('PyLongBinop', 'PyFloatBinop', 'PyLongCompare')
@@ -378,7 +384,7 @@ def run(ctx):
     rules.append(r1)
 
     # ------------------------------------------------------------------------------------------ P2
-    r2 = Rule('C02-P2', 'every string literal a template compares op / order / c_op with lies in the value domain of that variable (no dead or misspelt branch)', floor=60)
+    r2 = Rule('C02-P2', 'every string literal a template compares op / order / c_op with lies in the value domain of that variable (no dead or misspelt branch)', floor=83)
     reach_ops = {s: {p.op for p in points if p.section == s} for s in SECTIONS}
     orders = {p.order for p in points}
 
@@ -407,7 +413,7 @@ def run(ctx):
     # ------------------------------------------------------------------------------------------ P3 / arity / reachability / zero divisor
     r3 = Rule('C02-P3', 'for every reachable (operator, order, return kind, int/float) the C name built by optimise_numeric_binop is defined by the expanded '
                         'template (proto + impl) with as many parameters as arguments passed, matching constant/return kinds; op is a key of the template\'s c_op table; '
-                        'constant zero divisors bail out', floor=60)
+                        'constant zero divisors bail out', floor=68)
     ps = [a.arg for a in fn.args.args]
     right = ps[4]
     expansions = {}
@@ -423,7 +429,8 @@ def run(ctx):
 
     def p3_check(rule, p, proto_text, impl_text, cop_keys):
         key = p.key()
-        rule.inst(key, sample='%s -> %s, %d extra args' % (key, p.cname, p.n_extra))
+        if key not in rule.nontrivial:
+            rule.inst(key, sample='%s -> %s, %d extra args' % (key, p.cname, p.n_extra))
         passed = 2 + p.n_extra
         for typ, text in (('proto', proto_text), ('impl', impl_text)):
             decls = expanded_decls(text, p.cname)
@@ -461,7 +468,8 @@ def run(ctx):
             r3.inst(p.key(), nontrivial=False)
             continue
         if p.op not in cop[p.section]:
-            r3.inst(p.key())
+            if p.key() not in r3.nontrivial:
+                r3.inst(p.key())
             r3.violate(p.key() + ':unreachable-op', REL_OPT, p.load_line,
                        '%s instantiates %s with op=%r (int/float constant: %s) but the template\'s c_op table has no such key (%s): KeyError while compiling'
                        % (DECIDER, p.section, p.op, 'float' if p.is_float else 'int', sorted(cop[p.section])))
@@ -474,7 +482,7 @@ def run(ctx):
                            '%s reaches the %s fast path for op=%s with a constant right operand without having excluded `%s.constant_result == 0`: '
                            'the template only tests for zero when the object is the divisor (order CObj), so `x %s 0` divides by zero in C'
                            % (DECIDER, p.section, p.op, right, cop[p.section][p.op]))
-    r3.info('%d paths of %s bail out (return None)' % (bailed, DECIDER))
+    r3.info('%d paths of %s reach a fast path, %d bail out (return None)' % (len(points), DECIDER, bailed))
     pcp = Point()
     pcp.op, pcp.is_float, pcp.ret_obj, pcp.order, pcp.cname, pcp.section, pcp.n_extra, pcp.num_type, pcp.load_line, pcp.atoms = \
         'Add', False, True, 'ObjC', '__Pyx_PyLong_AddObjC', 'PyLongBinop', 2, P.Sym('PyrexTypes.c_long_type'), 0, {}
@@ -637,6 +645,8 @@ def consumer_method_problems(f2, call):
         return problems
     operands = concat[1]
     conds = [pc for t, pc in P.path_conditions(f2, lambda n: n is concat[0].value)]
+    if not conds:
+        raise AnalysisError('%s: the argument concatenation is unreachable' % f2.name)
     typed = {'len(%s)' % operands: [0, 1, 2, 3]}
     ok_lengths = set()
     for subst, av, vals in P.truth_table([t for t, _ in conds[0]], typed):
@@ -760,7 +770,7 @@ def admitted_maximum(fn, fvar, target_pred, op, extra_samples):
 
 def rule_range(ctx, fn, fvar, points, trees, cop):
     r = Rule('C02-RANGE', 'integer constants admitted by optimise_numeric_binop fit a 32-bit C long, and |c| times any unpacked PyLong admitted by the '
-                          'multiplication head-room test of PyLongBinop fits a 64-bit long long (PyLong_SHIFT 15 and 30)', floor=8)
+                          'multiplication head-room test of PyLongBinop fits a 64-bit long long (PyLong_SHIFT 15 and 30)', floor=17)
     mul_ops = [op for op, c in cop['PyLongBinop'].items() if c == '*']
     if not mul_ops:
         raise AnalysisError('PyLongBinop has no multiplication operator')
@@ -840,6 +850,8 @@ def rule_shift(ctx, cls, handlers, fw):
         args = ps[2] if len(ps) > 2 else 'args'
         for c in calls:
             pcs = [pc for t, pc in P.path_conditions(hfn, lambda n: n is c)]
+            if not pcs:
+                continue        # unreachable call
             conds = pcs[0]
             tests = [t for t, _ in conds]
             cr = '%s[1].constant_result' % args
